@@ -1,12 +1,305 @@
-//! C19 - not built yet.
-use crate::run::Ctx;
-use serde_json::Value;
+//! C19 - convenience and FFI layers return exactly what the core returns.
+//!
+//! Part A (`compiled`): every compiled-data wrapper `m(args)` (process-wide `TZ_PROVIDER`) against
+//! `m_with_provider(args, &FsTzdbProvider::default())`; `Now::*` structurally.
+//! Part B (`capi`): every function of every `temporal_capi::*::ffi` module, called from Rust, against the
+//! `temporal_rs` method it names; `conv`: enum / option-record / partial-record / I128 conversions.
+//! Completeness: the source text of both layers is scanned at run time for `pub fn` names; every wrapper
+//! not in the static lists of exercised names is reported in the evidence (not a violation).
 
-pub fn run(_ctx: &mut Ctx) {
-    eprintln!("property C19 has no check yet");
-    std::process::exit(2);
+use crate::conv::kind_name;
+use crate::run::*;
+use serde_json::Value;
+use temporal_rs::options::{
+    ArithmeticOverflow, DifferenceSettings, Disambiguation, DisplayCalendar, DisplayOffset, DisplayTimeZone, OffsetDisambiguation, RoundingIncrement, RoundingMode,
+    RoundingOptions, Unit,
+};
+use temporal_rs::parsers::Precision;
+use temporal_rs::{TemporalError, TemporalResult};
+
+pub mod capi;
+pub mod compiled;
+pub mod conv19;
+pub mod gen19;
+pub mod scan;
+
+use gen19::Bundle;
+
+/// observed result of one side: rendering of the value, or the error kind
+pub type R = Result<String, String>;
+
+/// FFI numbering of units (0 = Auto, 1 = Nanosecond ... 10 = Year)
+pub const UNITS: [Unit; 11] =
+    [Unit::Auto, Unit::Nanosecond, Unit::Microsecond, Unit::Millisecond, Unit::Second, Unit::Minute, Unit::Hour, Unit::Day, Unit::Week, Unit::Month, Unit::Year];
+pub const MODES: [RoundingMode; 9] = [
+    RoundingMode::Ceil,
+    RoundingMode::Floor,
+    RoundingMode::Expand,
+    RoundingMode::Trunc,
+    RoundingMode::HalfCeil,
+    RoundingMode::HalfFloor,
+    RoundingMode::HalfExpand,
+    RoundingMode::HalfTrunc,
+    RoundingMode::HalfEven,
+];
+
+pub fn unit_of(i: Option<u8>) -> Option<Unit> {
+    i.map(|i| UNITS[(i % 11) as usize])
+}
+pub fn mode_of(i: Option<u8>) -> Option<RoundingMode> {
+    i.map(|i| MODES[(i % 9) as usize])
+}
+pub fn overflow_of(i: Option<u8>) -> Option<ArithmeticOverflow> {
+    i.map(|i| if i % 2 == 0 { ArithmeticOverflow::Constrain } else { ArithmeticOverflow::Reject })
+}
+pub fn display_cal_of(i: u8) -> DisplayCalendar {
+    [DisplayCalendar::Auto, DisplayCalendar::Always, DisplayCalendar::Never, DisplayCalendar::Critical][(i % 4) as usize]
+}
+pub fn display_offset_of(i: u8) -> DisplayOffset {
+    [DisplayOffset::Auto, DisplayOffset::Never][(i % 2) as usize]
+}
+pub fn display_tz_of(i: u8) -> DisplayTimeZone {
+    [DisplayTimeZone::Auto, DisplayTimeZone::Never, DisplayTimeZone::Critical][(i % 3) as usize]
+}
+pub fn disambiguation_of(i: u8) -> Disambiguation {
+    [Disambiguation::Compatible, Disambiguation::Earlier, Disambiguation::Later, Disambiguation::Reject][(i % 4) as usize]
+}
+pub fn offset_disambiguation_of(i: u8) -> OffsetDisambiguation {
+    [OffsetDisambiguation::Use, OffsetDisambiguation::Prefer, OffsetDisambiguation::Ignore, OffsetDisambiguation::Reject][(i % 4) as usize]
+}
+pub fn precision_of(b: &Bundle) -> Precision {
+    if b.pmin {
+        Precision::Minute
+    } else if let Some(d) = b.pdig {
+        Precision::Digit(d)
+    } else {
+        Precision::Auto
+    }
+}
+/// core-side settings for Part A (both sides receive the same value): an inadmissible increment is dropped
+pub fn diff_settings_of(b: &Bundle) -> DifferenceSettings {
+    let mut s = DifferenceSettings::default();
+    s.largest_unit = unit_of(b.lu);
+    s.smallest_unit = unit_of(b.su);
+    s.rounding_mode = mode_of(b.rm);
+    s.increment = b.inc.and_then(|i| RoundingIncrement::try_new(i).ok());
+    s
+}
+pub fn rounding_options_of(b: &Bundle) -> RoundingOptions {
+    let mut s = RoundingOptions::default();
+    s.largest_unit = unit_of(b.lu);
+    s.smallest_unit = unit_of(b.su);
+    s.rounding_mode = mode_of(b.rm);
+    s.increment = b.inc.and_then(|i| RoundingIncrement::try_new(i).ok());
+    s
 }
 
-pub fn replay(_ctx: &mut Ctx, _sub: &str, _case: &Value) -> bool {
-    false
+pub fn ek(e: &TemporalError) -> String {
+    kind_name(e.kind()).to_string()
+}
+
+/// class labels must be `&'static str`; panic locations are a small open set, interned once each
+pub fn intern(s: String) -> &'static str {
+    use std::collections::HashMap;
+    use std::sync::Mutex;
+    static TABLE: Mutex<Option<HashMap<String, &'static str>>> = Mutex::new(None);
+    let mut g = TABLE.lock().unwrap_or_else(|e| e.into_inner());
+    let t = g.get_or_insert_with(HashMap::new);
+    if let Some(v) = t.get(&s) {
+        return v;
+    }
+    if t.len() >= 1000 {
+        return "core-panic@(other)";
+    }
+    let v: &'static str = Box::leak(s.clone().into_boxed_str());
+    t.insert(s, v);
+    v
+}
+/// "core-panic@file:line" label from a captured panic text "panic@file:line: message"
+pub fn panic_label(p: &str) -> &'static str {
+    let loc = p.split(": ").next().unwrap_or("panic@?");
+    intern(format!("core-{}", loc.replace("panic@", "panic@")))
+}
+
+/// the `&'static str` of a name in a static table (class labels must be static)
+pub fn static_name(table: &[&'static str], f: &str) -> &'static str {
+    table.iter().copied().find(|n| *n == f).unwrap_or("unknown-function")
+}
+
+// ---------------------------------------------------------------------------------------------
+// renderings of core values (the FFI side renders through its own getters, see capi.rs)
+
+pub trait Show {
+    fn show(&self) -> String;
+}
+macro_rules! show_debug {
+    ($($t:ty),*) => { $(impl Show for $t { fn show(&self) -> String { format!("{:?}", self) } })* };
+}
+show_debug!(i32, u8, u16, i64, bool, String, std::cmp::Ordering, f64, ());
+impl<T: Show> Show for Option<T> {
+    fn show(&self) -> String {
+        match self {
+            None => "None".into(),
+            Some(v) => format!("Some({})", v.show()),
+        }
+    }
+}
+impl Show for temporal_rs::MonthCode {
+    fn show(&self) -> String {
+        self.as_str().to_string()
+    }
+}
+impl<const N: usize> Show for temporal_rs::TinyAsciiStr<N> {
+    fn show(&self) -> String {
+        self.as_str().to_string()
+    }
+}
+impl Show for temporal_rs::primitive::FiniteF64 {
+    fn show(&self) -> String {
+        format!("{:?}", self.as_inner())
+    }
+}
+impl Show for temporal_rs::PlainDate {
+    fn show(&self) -> String {
+        format!("{}-{}-{}[{}]", self.iso_year(), self.iso_month(), self.iso_day(), self.calendar().identifier())
+    }
+}
+impl Show for temporal_rs::PlainTime {
+    fn show(&self) -> String {
+        format!("{}:{}:{}.{}.{}.{}", self.hour(), self.minute(), self.second(), self.millisecond(), self.microsecond(), self.nanosecond())
+    }
+}
+impl Show for temporal_rs::PlainDateTime {
+    fn show(&self) -> String {
+        format!(
+            "{}-{}-{}T{}:{}:{}.{}.{}.{}[{}]",
+            self.iso_year(),
+            self.iso_month(),
+            self.iso_day(),
+            self.hour(),
+            self.minute(),
+            self.second(),
+            self.millisecond(),
+            self.microsecond(),
+            self.nanosecond(),
+            self.calendar().identifier()
+        )
+    }
+}
+impl Show for temporal_rs::PlainYearMonth {
+    fn show(&self) -> String {
+        format!("{}-{}[{}] y={} m={} mc={}", self.iso_year(), self.iso_month(), self.calendar().identifier(), self.year(), self.month(), self.month_code().as_str())
+    }
+}
+impl Show for temporal_rs::PlainMonthDay {
+    fn show(&self) -> String {
+        format!("{}-{}-{}[{}] mc={}", self.iso_year(), self.iso_month(), self.iso_day(), self.calendar().identifier(), self.month_code().as_str())
+    }
+}
+impl Show for temporal_rs::Duration {
+    fn show(&self) -> String {
+        format!("{:?}", crate::conv::duration_fields(self))
+    }
+}
+impl Show for temporal_rs::Instant {
+    fn show(&self) -> String {
+        format!("{}", self.as_i128())
+    }
+}
+impl Show for temporal_rs::ZonedDateTime {
+    fn show(&self) -> String {
+        format!("{}|{:?}|{}", self.epoch_nanoseconds().as_i128(), self.timezone().identifier().map_err(|e| ek(&e)), self.calendar().identifier())
+    }
+}
+impl Show for temporal_rs::options::RelativeTo {
+    fn show(&self) -> String {
+        match self {
+            temporal_rs::options::RelativeTo::PlainDate(d) => format!("PlainDate({})", d.show()),
+            temporal_rs::options::RelativeTo::ZonedDateTime(z) => format!("Zoned({})", z.show()),
+        }
+    }
+}
+pub fn show_res<T: Show>(r: TemporalResult<T>) -> R {
+    match r {
+        Ok(v) => Ok(v.show()),
+        Err(e) => {
+            if debug_on() {
+                eprintln!("C19DEBUG {} {}", CUR.with(|c| c.borrow().clone()), crate::conv::err_str(&e));
+            }
+            Err(ek(&e))
+        }
+    }
+}
+thread_local! { pub static CUR: std::cell::RefCell<String> = const { std::cell::RefCell::new(String::new()) }; }
+pub fn set_cur(f: &str) {
+    if debug_on() {
+        CUR.with(|c| *c.borrow_mut() = f.to_string());
+    }
+}
+/// development aid: `C19_DEBUG=1` prints the message of every core error to stderr
+pub fn debug_on() -> bool {
+    static ON: std::sync::OnceLock<bool> = std::sync::OnceLock::new();
+    *ON.get_or_init(|| std::env::var("C19_DEBUG").is_ok())
+}
+
+// ---------------------------------------------------------------------------------------------
+
+pub fn run(ctx: &mut Ctx) {
+    ctx.rule = "case = (wrapper name drawn uniformly from the static list of exercised wrappers, argument bundle). The bundle holds receivers whose nine fields \
+(year, month, day, hour, minute, second, ms, us, ns) are pairwise distinct by construction, a second operand, zones (UTC, 9 named IANA zones incl. America/New_York, \
+Europe/London, Asia/Kolkata, Australia/Lord_Howe, 6 fixed offsets), 17 calendars, durations, every option (all variants incl. absent), raw constructor arguments around \
+each limit, partial-record masks, strings. compiled: wrapper(args) vs *_with_provider(args, fresh FsTzdbProvider) - same rendered value or same error kind (the core is \
+called first; if it panics the wrapper is not called and the case is unjudged). capi: ffi function vs the temporal_rs method it names; values are rendered through each \
+side's own getters; strings read back from DiplomatWrite buffers. conv: exhaustive enum tables, all 64 subsets of PartialDate/PartialTime, all 1024 of PartialDuration, \
+option records, I128Nanoseconds. non-trivial: every judged case (the rule of the property); distinct = distinct (function, bundle) by hash; the class histogram counts \
+cases per wrapper and per receiver class."
+        .into();
+    ctx.assumptions = vec![
+        "the C ABI thunks generated by diplomat are trusted; the Rust-level ffi methods are what is compared".into(),
+        "FsTzdbProvider is a deterministic function of (zone, argument): a fresh instance and the process-wide instance must agree".into(),
+        "Now::* is compared structurally: same zone, reading within [Now::instant() before, Now::instant() after] as the core converts those two instants".into(),
+    ];
+    let tier = ctx.tier;
+    let per_fn = tier.pick(300, 9_000);
+
+    // ---- Part A
+    let n_a = per_fn * compiled::NAMES.len() as u64;
+    let names_a: Vec<&'static str> = compiled::NAMES.iter().copied().filter(|n| *n != "Now::*").collect();
+    ctx.run_prop(&compiled::CompiledSub, &|| gen19::bundle(names_a.clone(), true), n_a);
+    // +14:00 / -12:00: at any moment at least one of them is on a different calendar day than UTC
+    let now_zones = ["", "UTC", "America/New_York", "Europe/London", "Asia/Kolkata", "Australia/Lord_Howe", "+14:00", "-12:00"];
+    let n_now = tier.pick(3 * 8 * 8, 3 * 8 * 200);
+    ctx.run_enum(
+        &compiled::NowSub,
+        n_now,
+        &|i| compiled::NowCase { which: (i % 3) as u8, zone: now_zones[((i / 3) % 8) as usize].to_string(), rep: (i / 24) as u32 },
+        false,
+    );
+
+    // ---- Part B
+    let n_b = per_fn * capi::NAMES.len() as u64;
+    ctx.run_prop(&capi::CapiSub, &|| gen19::bundle(capi::NAMES.to_vec(), false), n_b);
+
+    // ---- conversions
+    conv19::run(ctx);
+
+    // ---- completeness accounting
+    let report = scan::report();
+    if let Some(n) = report.get("unexercised_count").and_then(|v| v.as_u64()) {
+        ctx.note(format!("completeness: {} wrapper(s) found in the source text are not exercised (listed under coverage.completeness)", n));
+    }
+    ctx.extra.insert("completeness".into(), report);
+}
+
+pub fn replay(ctx: &mut Ctx, sub: &str, case: &Value) -> bool {
+    match sub {
+        "compiled" => ctx.replay_case(&compiled::CompiledSub, case),
+        "now" => ctx.replay_case(&compiled::NowSub, case),
+        "capi" => ctx.replay_case(&capi::CapiSub, case),
+        "enum" => ctx.replay_case(&conv19::EnumSub, case),
+        "partial" => ctx.replay_case(&conv19::PartialSub, case),
+        "i128" => ctx.replay_case(&conv19::I128Sub, case),
+        "options" => ctx.replay_case(&conv19::OptionsSub, case),
+        _ => false,
+    }
 }
